@@ -20,6 +20,8 @@ import traceback
 import multiprocessing
 
 VERIF = os.path.dirname(os.path.dirname(os.path.dirname(os.path.abspath(__file__))))
+# evidence/ and replays/ go under VERIF_OUT when set (used when checks are pointed at a scratch copy of the repo)
+OUT = os.environ.get('VERIF_OUT') or VERIF
 REPO = os.environ.get('PYSMI_REPO', '/repo')
 
 
@@ -360,7 +362,7 @@ class Context(object):
             'assumptions': list(self.check.ASSUMPTIONS), 'wall_s': round(wall, 2),
             'violations': len(self.failures),
         }
-        evdir = os.path.join(VERIF, 'evidence')
+        evdir = os.path.join(OUT, 'evidence')
         os.makedirs(evdir, exist_ok=True)
         with open(os.path.join(evdir, '%s.json' % self.id), 'w') as f:
             json.dump(ev, f, indent=1, sort_keys=True)
@@ -370,7 +372,7 @@ class Context(object):
         print('%s tier=%s seed=%s evaluations=%d distinct_nontrivial=%d wall=%.1fs' % (
             self.id, self.tier, self.seed, self.evaluations, len(self.nontrivial), wall))
         if self.failures:
-            rdir = os.path.join(VERIF, 'replays', self.id)
+            rdir = os.path.join(OUT, 'replays', self.id)
             os.makedirs(rdir, exist_ok=True)
             seen = set()
             for f in self.failures:
@@ -386,7 +388,7 @@ class Context(object):
                                'case': f['case'], 'extra': f.get('extra')}, fh, indent=1, default=repr)
                     fh.write('\n')
                 print('  %s: %s' % (f['facet'], str(f['detail'])[:600]))
-                print('VIOLATION property=%s replay=%s' % (self.id, os.path.relpath(path, VERIF)))
+                print('VIOLATION property=%s replay=%s' % (self.id, os.path.relpath(path, OUT)))
             return 1
         if len(self.nontrivial) < 2 or self.evaluations < 1:
             raise HarnessError('check explored too little: evaluations=%d nontrivial=%d' % (
